@@ -905,6 +905,10 @@ func (ex *Exec) builtin(st *State, name string, args []Value, call ssa.CallInstr
 			return s
 		}
 		if s.Arr != 0 && s.Len+len(add) <= s.Cap {
+			// append into spare capacity writes the elements of the existing backing array: visible to the race passes
+			for i := range add {
+				ex.globalAccess(st, s.Arr, s.Off+s.Len+i, true)
+			}
 			o := st.Heap.get(s.Arr)
 			arr := append(Array(nil), o.V.(Array)...)
 			copy(arr[s.Off+s.Len:], add)
